@@ -16,7 +16,7 @@ RULE = ("seeded datasets (row-group splits, hive/drill partitions, stats on/off/
 ASSUMPTIONS = ["ground-truth rows per row group come from the unfiltered read of the same handle (C01/C06)",
                "a missing-like cell (NULL, NaN, NaT) satisfies no condition (weakest reading: pruning such rows is never an alarm)",
                "a filtered call that raises loses nothing silently and is counted as refused"]
-CASE_TIMEOUT = 300
+CASE_TIMEOUT = 120
 
 from vf.gen import datasets as D
 from vf.gen import frames as F
